@@ -23,6 +23,41 @@ def sizes_for(xt):
     return [1, 3, k - 1, k, k + 1]
 
 
+def gen_buffers_mp(thorough):
+    """several processes, intra-node write aggregation on: collective blocking and nonblocking writes of every process leave its buffer untouched"""
+    scripts = []
+    for np in ((2, 3, 4) if thorough else (2, 3)):
+        for agg in (1, 2):
+            if agg >= np: continue
+            for swap in (None, 'nc_in_place_swap=enable'):
+                for xt in ([D.NC_SHORT, D.NC_INT, D.NC_FLOAT, D.NC_DOUBLE] if thorough else [D.NC_INT, D.NC_DOUBLE]):
+                    k = 4096 // D.XT_SIZE[xt]
+                    hint = 'nc_num_aggrs_per_node=%d' % agg + (';' + swap if swap else '')
+                    XL = np * (k + 8) + 16
+                    s = Script('BUFMP-np%d-ag%d-%s-x%d' % (np, agg, 'swap' if swap else 'auto', xt), np, 2, [('x', XL), ('t', None)], [('v', xt, [0]), ('r', xt, [1, 0])], hints=hint)
+                    s.put(0, 0, [0], [XL], None, form='vara', coll=1, tag=5, scale=1)
+                    for r in range(1, np): s.op(r, 'put', f=0, form='vara', v=0, s=[0], c=[0], coll=1, mem=D.XT_MEM[xt])
+                    tag = 0
+                    for n in (3, k + 1):
+                        for path in ('blocking', 'flex', 'iput-wait_all', 'varn', 'record'):
+                            for r in range(np):
+                                tag = tag % 90 + 1
+                                st = [2 + r * (k + 4)]
+                                if path == 'blocking': s.put(r, 0, st, [n], None, form='vara', coll=1, tag=tag, scale=1)
+                                elif path == 'flex': s.put(r, 0, st, [n], None, form='vara', coll=1, tag=tag, scale=1, api='flex')
+                                elif path == 'varn': s.put(r, 0, form='varn', boxes=[(st, [n // 2 + 1]), ([st[0] + n // 2 + 1], [n - n // 2 - 1])], coll=1, tag=tag, scale=1)
+                                elif path == 'record': s.put(r, 1, [r, st[0]], [1, n], None, form='vara', coll=1, tag=tag, scale=1)
+                                else:
+                                    ln, idx, vals = s.put(r, 0, st, [n], None, form='vara', nb='i', req=r, tag=tag, update=False, scale=1)
+                                    s.op(r, 'wait', f=0, ids=['q%d' % r], all=1); s.model.put_idx(0, idx, vals)
+                                    lr = s.op(r, 'rbuf', expect_rc=None, req=r)
+                                    s.add_expect(lr, lambda o, rk, lr=lr: None if o.get('mod') in (None, '0') else (('buffer_modified', 'iput', 'after wait_all under aggregation'), 'line %d rank %d: write buffer differs from its posting-time content' % (lr, rk)), [r])
+                            s.get_all('*', 0, coll=1, what='file content')
+                    s.finish()
+                    scripts.append(s)
+    return scripts
+
+
 def gen_buffers(thorough):
     scripts = []
     for hint in HINTS:
@@ -175,7 +210,7 @@ def main(tier=None):
     ck = Check('C13', 'model_checking', tier)
     b = build.build('plain')
     thorough = ck.tier == 'thorough'
-    scripts = gen_buffers(thorough)
+    scripts = gen_buffers(thorough) + gen_buffers_mp(thorough)
     results = runner.run_cases(b['vx'], [s.case for s in scripts], batch=2, timeout=600)
     nev = 0
     for s, r in zip(scripts, results):
@@ -192,7 +227,7 @@ def main(tier=None):
     ck.cov['distinct_nontrivial'] = ck.cov.get('states', 0)
     ck.cov['rule'] = ('(a) request sizes on both sides of the 4096-byte in-place-swap threshold x external types needing swap x same/converting memory type x buffer datatypes {contiguous, vector with gaps, indexed, resized} x padded imap x nc_in_place_swap {auto,enable,disable} '
                       'x exit path {blocking, iput+wait_all, iput+cancel, bput+wait_all, bput+overwrite-after-post, put_varn, iput_varn+wait, put_vard, NC_ERANGE return, NC_EIOMISMATCH return, independent wait}: write buffers byte-identical afterwards, file holds posting-time '
-                      'values, reads modify exactly the type-map bytes. (b) BFS over buffer_attach(40|100|0)/bput(sizes)/iput/wait_all and cancel of each pending request and of all/detach; usage, size, pending count and refusal compared with the model after every step.')
+                      'values, reads modify exactly the type-map bytes; the blocking / flexible / iput / varn / record-variable writes again on 2-4 processes with intra-node aggregation (1 or 2 aggregators) and in-place swap auto / forced. (b) BFS over buffer_attach(40|100|0)/bput(sizes)/iput/wait_all and cancel of each pending request and of all/detach; usage, size, pending count and refusal compared with the model after every step.')
     ck.assumptions += ['attached-buffer sizes 40 and 100 bytes, depth bound %d' % bfs.maxdepth]
     runner.cleanup()
     return ck.finish(min_eval=300, min_outcomes=10)
